@@ -357,3 +357,17 @@ def process_save(self, out_state, save_context, M=None, K=None):
     replay('raw_inputs_recorded_iff_they_exist', 'bundle_roundtrip')
     replay('parsed_inputs_recorded_iff_they_exist', 'bundle_roundtrip')
     replay('outputs_recorded_when_there_are_any', 'bundle_roundtrip')
+
+
+@contract('plumpy.processes.Process.transition_failed', props=['C03', 'C01'])
+def transition_failed(self, initial_state, final_state, exception, trace):
+    """a transition that raised: while the process is being created the exception goes to the caller of the constructor;
+    otherwise the process is sent to a fresh EXCEPTED state carrying exactly that exception"""
+    requires(wf_proc(self) and not isinstance(self, plumpy.workchains.WorkChain) and isinstance(exception, BaseException))
+    requires(self._state is None or not terminal_label(self._state.LABEL))
+    modifies(user_effects, self._state, self._transitioning, self._transition_failing, self._cleanups, self._event_callbacks, self._closed)
+    ensures('not_while_creating', final_state is not ProcessState.CREATED)
+    ensures('sent_to_excepted_with_that_exception', type_is(self._state, Excepted) and fresh(self._state) and self._state.exception is exception)
+    raises(BaseException, implies(final_state is ProcessState.CREATED, exc is exception))      # otherwise: a hook of the EXCEPTED transition failed
+    replay('sent_to_excepted_with_that_exception', 'failure_injection')
+    replay('raises_only_declared', 'failure_injection')
